@@ -336,3 +336,305 @@ Proof.
   { eapply Rle_trans; [exact Hdr|]. apply Rmult_le_compat_l; [lra|]. lra. }
   rewrite <- Eq. ring.
 Qed.
+
+(* ================================================================ Theorem 4: everything from the data *)
+(* the trace relations of the back substitution, as equations between floats (no finiteness assumed) *)
+Lemma thomas_float_trace_fun (t : tridiag AF) (r x : list pfloat) :
+  wfT t -> (1 <= tn t)%nat -> length r = tn t -> tsolve (A := AF) t r = Ok x ->
+  length x = tn t /\ nth (tn t - 1) x 0%float = ty t r (tn t - 1) /\
+  (forall i, (i + 1 < tn t)%nat -> nth i x 0%float = (ty t r i - tgamma t (i + 1) * nth (i + 1) x 0)%float).
+Proof.
+  intros W Hn Hr E.
+  destruct (thomas_trace_lemma (A := AF) t r W Hn Hr x E) as (bl & gl & yl & Lx & Lb & Lg & Ly & Rel & Vlast & Vback).
+  change (T AF) with PrimFloat.float in *. change (@zero AF) with 0%float in *.
+  pose proof (fwd_rel_det t r (tn t) bl gl yl Rel) as Det.
+  split; [exact Lx|]. split.
+  - destruct (Det (tn t - 1)%nat ltac:(lia)) as (_ & Y & _). now rewrite <- Y.
+  - intros i Hi. destruct (Det i ltac:(lia)) as (_ & Y & _). destruct (Det (i + 1)%nat Hi) as (_ & _ & G).
+    rewrite <- Y, <- (G ltac:(lia)). exact (Vback i Hi).
+Qed.
+
+Lemma rnd64_abs_err v : Rabs (rnd64 v) <= Rabs v * (1 + u64) + eta64.
+Proof.
+  destruct (rnd64_err_ex v) as (d & e & Hd & He & ->). pose proof u64_range64 as Hu.
+  eapply Rle_trans; [apply Rabs_triang|]. rewrite Rabs_mult.
+  pose proof (abs_one_plus u64 Hu d Hd). pose proof (Rabs_pos v). nra.
+Qed.
+
+Lemma eta64_small : eta64 <= / 100.
+Proof.
+  unfold eta64. assert (L : bpow radix2 (-1074) <= bpow radix2 (-7)) by (apply bpow_le; lia).
+  change (bpow radix2 (-7)) with (/ 128) in L. lra.
+Qed.
+
+Lemma bp_facts : let P := bpow radix2 300 in
+  1 <= P /\ bpow radix2 (-300) * P = 1 /\ bpow radix2 603 = 8 * P * P /\ bpow radix2 605 = 32 * P * P /\
+  bpow radix2 903 = 8 * P * P * P /\ bpow radix2 904 = 16 * P * P * P.
+Proof.
+  cbv zeta. split; [change 1 with (bpow radix2 0); apply bpow_le; lia|].
+  split; [rewrite <- bpow_plus; reflexivity|].
+  split; [change 603%Z with (3 + 300 + 300)%Z; rewrite !bpow_plus; change (bpow radix2 3) with 8; ring|].
+  split; [change 605%Z with (5 + 300 + 300)%Z; rewrite !bpow_plus; change (bpow radix2 5) with 32; ring|].
+  split; [change 903%Z with (3 + 300 + 300 + 300)%Z; rewrite !bpow_plus; change (bpow radix2 3) with 8; ring|].
+  change 904%Z with (4 + 300 + 300 + 300)%Z; rewrite !bpow_plus; change (bpow radix2 4) with 16; ring.
+Qed.
+
+Section DataOnly.
+Variable t : tridiag AF.
+Hypothesis Hn : (1 <= tn t)%nat.
+Hypothesis HF : tri_finite t.
+Hypothesis HS : tri_scaled t.
+Hypothesis Bl : forall i, (i < tn t)%nat -> bpow radix2 (-300) <= Rabs (FR (nth i (tmain t) 0%float)).
+Hypothesis SD : forall i, (i < tn t)%nat ->
+  2 * (Rabs (FR (nth i (0%float :: tsub t) 0%float)) + Rabs (FR (nth i (tsup t) 0%float))) <= Rabs (FR (nth i (tmain t) 0%float)).
+
+Notation P := (bpow radix2 300).
+Notation av i := (FR (fnth i (0%float :: tsub t))).
+Notation bv i := (FR (fnth i (tmain t))).
+Notation cv i := (FR (fnth i (tsup t))).
+
+Lemma strong_dominant_f : dominant_f t.
+Proof using Bl SD.
+  intros i Hi. specialize (SD i Hi). specialize (Bl i Hi). pose proof (bpow_gt_0 radix2 (-300)).
+  pose proof OV.Proofs.RoundDotFloat.u64_small as Hu. pose proof u64_range as Hu0.
+  pose proof (Rabs_pos (av i)). pose proof (Rabs_pos (cv i)). fl. nra.
+Qed.
+
+Lemma beta_low k : (k < tn t)%nat -> Rabs (FR (tbeta t k)) >= (Rabs (bv k) - Rabs (av k) * (1 + u64)) * (1 - u64).
+Proof using Hn HF HS Bl SD.
+  intros Hk. pose proof u64_range64 as Hu. destruct k as [|k].
+  - change (tbeta t 0) with (fnth 0 (tmain t)). cbn [nth]. rewrite FR_0, Rabs_R0.
+    pose proof (Rabs_pos (bv 0)). fl. nra.
+  - destruct (matrix_rels t Hn HF HS strong_dominant_f k ltac:(lia)) as (Hg & _ & d2 & d3 & H2 & H3 & E).
+    replace (k + 1)%nat with (S k) in * by lia. rewrite E. cbn [nth].
+    pose proof (abs_one_plus u64 Hu d2 H2) as A2. pose proof (abs_one_plus u64 Hu d3 H3) as A3.
+    pose proof (SD (S k) Hk) as Ha. cbn [nth] in Ha.
+    fl. set (a := FR (fnth k (tsub t))) in *. set (b := FR (fnth (S k) (tmain t))) in *. set (g := FR (tgamma t (S k))) in *.
+    rewrite Rabs_mult.
+    assert (Ht : Rabs (b - a * g * (1 + d2)) >= Rabs b - Rabs a * (1 + u64)).
+    { eapply Rge_trans; [apply Rle_ge, Rabs_triang_inv|]. rewrite !Rabs_mult.
+      pose proof (Rabs_pos a). pose proof (Rabs_pos g).
+      assert (P1 : Rabs g * Rabs (1 + d2) <= 1 + u64) by nra. nra. }
+    pose proof (Rabs_pos a). pose proof (Rabs_pos b). pose proof (Rabs_pos (cv (S k))).
+    assert (L0 : 0 <= Rabs b - Rabs a * (1 + u64)) by nra.
+    apply Rle_ge. apply Rmult_le_compat; lra.
+Qed.
+
+Lemma beta_nz k : (k < tn t)%nat -> FR (tbeta t k) <> 0 /\ ffinite (tbeta t k).
+Proof using Hn HF HS Bl SD.
+  intros Hk. destruct (pivots_from_data t Hn HF HS strong_dominant_f k Hk) as ((Fb & Nb & _) & _). split; assumption.
+Qed.
+
+(* the multipliers are at most 0.51 *)
+Lemma gamma_half k : (k + 1 < tn t)%nat -> Rabs (FR (tgamma t (k + 1))) <= 51 / 100.
+Proof using Hn HF HS Bl SD.
+  intros Hk. destruct (matrix_rels t Hn HF HS strong_dominant_f k Hk) as (_ & (d1 & H1 & E) & _).
+  pose proof (beta_low k ltac:(lia)) as L. destruct (beta_nz k ltac:(lia)) as (Nb & _).
+  pose proof (SD k ltac:(lia)) as D. pose proof u64_range64 as Hu. pose proof OV.Proofs.RoundDotFloat.u64_small as Hu'.
+  pose proof (abs_one_plus u64 Hu d1 H1) as A1.
+  rewrite E. fl. set (c := cv k) in *. set (a := av k) in *. set (b := bv k) in *. set (be := FR (tbeta t k)) in *.
+  pose proof (Rabs_pos a). pose proof (Rabs_pos c). pose proof (Rabs_pos b).
+  assert (Pb : 0 < Rabs be) by now apply Rabs_pos_lt.
+  assert (Lb : Rabs be >= 2 * Rabs c * (1 - u64)) by nra.
+  unfold Rdiv. rewrite !Rabs_mult, Rabs_inv.
+  apply (Rmult_le_reg_r (Rabs be)); [exact Pb|].
+  replace (Rabs c * / Rabs be * Rabs (1 + d1) * Rabs be) with (Rabs c * Rabs (1 + d1)) by (field; lra).
+  nra.
+Qed.
+
+Lemma beta_big k : (k < tn t)%nat -> 7 / 10 * Rabs (bv k) <= Rabs (FR (tbeta t k)).
+Proof using Hn HF HS Bl SD.
+  intros Hk. pose proof u64_range64 as Hu. pose proof OV.Proofs.RoundDotFloat.u64_small as Hu'. destruct k as [|k].
+  - change (tbeta t 0) with (fnth 0 (tmain t)). pose proof (Rabs_pos (bv 0)). fl. lra.
+  - destruct (matrix_rels t Hn HF HS strong_dominant_f k ltac:(lia)) as (_ & _ & d2 & d3 & H2 & H3 & E).
+    pose proof (gamma_half k ltac:(lia)) as Hg.
+    replace (k + 1)%nat with (S k) in * by lia. rewrite E.
+    pose proof (abs_one_plus u64 Hu d2 H2) as A2. pose proof (abs_one_plus u64 Hu d3 H3) as A3.
+    pose proof (SD (S k) Hk) as D. cbn [nth] in D.
+    fl. set (a := FR (fnth k (tsub t))) in *. set (b := FR (fnth (S k) (tmain t))) in *. set (g := FR (tgamma t (S k))) in *.
+    set (c := cv (S k)) in *.
+    rewrite Rabs_mult.
+    pose proof (Rabs_pos a). pose proof (Rabs_pos g). pose proof (Rabs_pos b). pose proof (Rabs_pos c).
+    assert (P1 : Rabs g * Rabs (1 + d2) <= 51 / 100 * (1 + u64)) by (apply Rmult_le_compat; lra).
+    assert (P2 : Rabs a * (Rabs g * Rabs (1 + d2)) <= Rabs b / 2 * (51 / 100 * (1 + u64))) by (apply Rmult_le_compat; nra).
+    assert (Ht : Rabs (b - a * g * (1 + d2)) >= Rabs b - Rabs b / 2 * (51 / 100 * (1 + u64))).
+    { eapply Rge_trans; [apply Rle_ge, Rabs_triang_inv|]. rewrite !Rabs_mult. lra. }
+    assert (L1 : 744 / 1000 * Rabs b <= Rabs (b - a * g * (1 + d2))) by nra.
+    assert (L2 : 744 / 1000 * Rabs b * (1 - u64) <= Rabs (b - a * g * (1 + d2)) * Rabs (1 + d3))
+      by (apply Rmult_le_compat; lra).
+    nra.
+Qed.
+
+Variable r : list pfloat.
+Hypothesis W : wfT t.
+Hypothesis Hr : length r = tn t.
+Hypothesis Fr : forall i, (i < tn t)%nat -> ffinite (nth i r 0%float) /\ Rabs (FR (nth i r 0%float)) <= bpow radix2 300.
+
+Lemma Pb_ge1 k : (k < tn t)%nat -> 1 <= P * Rabs (bv k) /\ Rabs (bv k) <= P.
+Proof.
+  intros Hk. destruct bp_facts as (P1 & Pi & _). specialize (Bl k Hk). destruct HS as (Sm & _). specialize (Sm k Hk).
+  pose proof (bpow_gt_0 radix2 300). fl. split; [|exact Sm]. rewrite <- Pi. rewrite Rmult_comm. apply Rmult_le_compat_l; lra.
+Qed.
+
+(* one division of the forward sweep *)
+Lemma ydiv_step k (num : pfloat) : (k < tn t)%nat -> ffinite num ->
+  Rabs (FR num) <= 56 / 10 * (P * P * Rabs (bv k)) ->
+  ffinite (num / tbeta t k)%float /\ Rabs (FR (num / tbeta t k)%float) <= 8 * P * P.
+Proof.
+  intros Hk Fnum Bn. destruct (beta_nz k Hk) as (Nb & Fb). pose proof (beta_big k Hk) as Lb.
+  destruct bp_facts as (P1 & _ & B603 & _). destruct (Pb_ge1 k Hk) as (Q1 & _).
+  fl. set (b := bv k) in *. set (be := FR (tbeta t k)) in *.
+  assert (Pbe : 0 < Rabs be) by now apply Rabs_pos_lt.
+  pose proof (Rabs_pos b).
+  assert (Hq : Rabs (FR num / be) <= bpow radix2 603).
+  { rewrite B603. unfold Rdiv. rewrite Rabs_mult, Rabs_inv.
+    apply (Rmult_le_reg_r (Rabs be)); [exact Pbe|]. rewrite Rmult_assoc, Rinv_l, Rmult_1_r by lra.
+    assert (0 <= P * P) by nra.
+    assert (8 * P * P * (7 / 10 * Rabs b) <= 8 * P * P * Rabs be) by (apply Rmult_le_compat_l; nra).
+    nra. }
+  assert (Oq : no_overflow (FR num / be)) by (apply (no_overflow_le _ 603); [lia|exact Hq]).
+  destruct (fdiv_correct _ _ Fnum Nb Oq) as (E & F). split; [exact F|].
+  rewrite E, <- B603. apply rnd64_abs_le; [lia|exact Hq].
+Qed.
+
+Lemma y_bound k : (k < tn t)%nat -> ffinite (ty t r k) /\ Rabs (FR (ty t r k)) <= 8 * P * P.
+Proof.
+  pose proof u64_range64 as Hu. pose proof OV.Proofs.RoundDotFloat.u64_small as Hu'. pose proof eta64_small as He. pose proof eta64_pos as He0.
+  destruct bp_facts as (P1 & _ & B603 & _ & B903 & B904).
+  induction k as [|k IH]; intros Hk; rewrite ty_eq.
+  - cbn [tnum]. destruct (Fr 0%nat Hk) as (F0 & R0). destruct (Pb_ge1 0 Hk) as (Q1 & _).
+    apply ydiv_step; [exact Hk|exact F0|]. pose proof (Rabs_pos (bv 0)). fl.
+    assert (P <= P * (P * Rabs (bv 0))) by (rewrite <- (Rmult_1_r P) at 1; apply Rmult_le_compat_l; lra).
+    nra.
+  - cbn [tnum]. destruct (IH ltac:(lia)) as (Fy & By). destruct (Fr (S k) Hk) as (Frk & Rk).
+    destruct (Pb_ge1 (S k) Hk) as (Q1 & Q2). pose proof (SD (S k) Hk) as D. cbn [nth] in D.
+    destruct HF as (_ & Fo). destruct (Fo k ltac:(lia)) as (Fa & _).
+    fl. set (a := FR (fnth k (tsub t))) in *. set (b := bv (S k)) in *. set (y := FR (ty t r k)) in *.
+    set (c := cv (S k)) in *. set (rk := FR (fnth (S k) r)) in *.
+    pose proof (Rabs_pos a). pose proof (Rabs_pos b). pose proof (Rabs_pos c). pose proof (Rabs_pos y).
+    set (Q := P * P * Rabs b). assert (Q0 : P <= Q).
+    { unfold Q. rewrite <- (Rmult_1_r P) at 1. rewrite Rmult_assoc. apply Rmult_le_compat_l; lra. }
+    assert (Hp : Rabs (a * y) <= 4 * Q).
+    { rewrite Rabs_mult. unfold Q. assert (Rabs a * Rabs y <= Rabs b / 2 * (8 * P * P)) by (apply Rmult_le_compat; lra). lra. }
+    assert (QP : Q <= P * P * P) by (unfold Q; apply Rmult_le_compat_l; nra).
+    assert (Op : no_overflow (a * y)) by (apply (no_overflow_le _ 903); [lia|rewrite B903; lra]).
+    destruct (fmul_correct _ _ Op) as (Ep & Fp). specialize (Fp Fa Fy). fold a y in Ep.
+    pose proof (rnd64_abs_err (a * y)) as Rp.
+    assert (Rp' : Rabs (rnd64 (a * y)) <= 4 * Q * (1 + u64) + eta64).
+    { eapply Rle_trans; [exact Rp|]. apply Rplus_le_compat_r. apply Rmult_le_compat_r; lra. }
+    assert (Qu : Q * u64 <= Q / 1024) by nra.
+    assert (Hs : Rabs (rk - FR (fnth k (tsub t) * ty t r k)%float) <= 503 / 100 * Q).
+    { rewrite Ep. eapply Rle_trans; [apply Rabs_triang|]. rewrite Rabs_Ropp. lra. }
+    assert (Os : no_overflow (rk - FR (fnth k (tsub t) * ty t r k)%float)).
+    { apply (no_overflow_le _ 904); [lia|rewrite B904; lra]. }
+    destruct (fsub_correct _ _ Frk Fp Os) as (Es & Fs). fold rk in Es.
+    apply ydiv_step; [exact Hk|exact Fs|]. fold b Q. fl. rewrite Es.
+    destruct (rnd64_plus_ex rk (- FR (fnth k (tsub t) * ty t r k)%float)) as (d5 & H5 & E5);
+      [apply FR_fmt|apply generic_format_opp, FR_fmt|].
+    unfold Rminus. fl. rewrite E5, Rabs_mult. pose proof (abs_one_plus u64 Hu d5 H5) as A5.
+    unfold Rminus in Hs.
+    assert (Rabs (rk + - FR (fnth k (tsub t) * ty t r k)%float) * Rabs (1 + d5) <= 503 / 100 * Q * (1 + u64))
+      by (apply Rmult_le_compat; try apply Rabs_pos; lra).
+    lra.
+Qed.
+
+Lemma x_bound (x : list pfloat) : tsolve (A := AF) t r = Ok x ->
+  forall m i, (i + m = tn t - 1)%nat -> ffinite (nth i x 0%float) /\ Rabs (FR (nth i x 0%float)) <= 32 * P * P.
+Proof.
+  intros E. destruct (thomas_float_trace_fun t r x W Hn Hr E) as (Lx & Vl & Vb).
+  pose proof u64_range64 as Hu. pose proof OV.Proofs.RoundDotFloat.u64_small as Hu'. pose proof eta64_small as He. pose proof eta64_pos as He0.
+  destruct bp_facts as (P1 & _ & _ & B605 & _). assert (PP1 : 1 <= P * P) by nra.
+  induction m as [|m IH]; intros i Hi.
+  - assert (i = tn t - 1)%nat as -> by lia. rewrite Vl. destruct (y_bound (tn t - 1)%nat ltac:(lia)) as (Fy & By).
+    split; [exact Fy|lra].
+  - destruct (IH (i + 1)%nat ltac:(lia)) as (Fx' & Bx'). rewrite (Vb i ltac:(lia)).
+    destruct (y_bound i ltac:(lia)) as (Fy & By). pose proof (gamma_half i ltac:(lia)) as Hg.
+    destruct (pivots_from_data t Hn HF HS strong_dominant_f i ltac:(lia)) as (_ & M). destruct (M ltac:(lia)) as ((Fg & _) & _).
+    fl. set (g := FR (tgamma t (i + 1))) in *. set (x' := FR (fnth (i + 1) x)) in *. set (y := FR (ty t r i)) in *.
+    pose proof (Rabs_pos g). pose proof (Rabs_pos x').
+    assert (Hp : Rabs (g * x') <= 1632 / 100 * (P * P)).
+    { rewrite Rabs_mult. assert (Rabs g * Rabs x' <= 51 / 100 * (32 * P * P)) by (apply Rmult_le_compat; lra). lra. }
+    assert (Op : no_overflow (g * x')) by (apply (no_overflow_le _ 605); [lia|rewrite B605; lra]).
+    destruct (fmul_correct _ _ Op) as (Ep & Fp). specialize (Fp Fg Fx'). fold g x' in Ep.
+    pose proof (rnd64_abs_err (g * x')) as Rp.
+    assert (Rp' : Rabs (rnd64 (g * x')) <= 1632 / 100 * (P * P) * (1 + u64) + eta64).
+    { eapply Rle_trans; [exact Rp|]. apply Rplus_le_compat_r. apply Rmult_le_compat_r; lra. }
+    assert (Qu : P * P * u64 <= P * P / 1024) by nra.
+    assert (Hs : Rabs (y - FR (tgamma t (i + 1) * fnth (i + 1) x)%float) <= bpow radix2 605).
+    { rewrite Ep, B605. eapply Rle_trans; [apply Rabs_triang|]. rewrite Rabs_Ropp. lra. }
+    assert (Os : no_overflow (y - FR (tgamma t (i + 1) * fnth (i + 1) x)%float)) by (apply (no_overflow_le _ 605); [lia|exact Hs]).
+    destruct (fsub_correct _ _ Fy Fp Os) as (Es & Fs). fold y in Es. split; [exact Fs|].
+    fl. rewrite Es. replace (32 * P * P) with (bpow radix2 605) by (rewrite B605; ring). apply rnd64_abs_le; [lia|exact Hs].
+Qed.
+
+(* Theorem 4: strongly dominant systems with entries in [2^-300, 2^300]: solved, finite, backward stable up to 2^-1075 per row *)
+Theorem thomas_dominant_float_data_lemma :
+  exists x, tsolve (A := AF) t r = Ok x /\ length x = tn t /\
+    (forall i, (i < tn t)%nat -> ffinite (nth i x 0%float)) /\
+    forall i, (i < tn t)%nat -> exists da db dc dr,
+      Rabs da <= 3 * u64 * Rabs (FR (nth i (0%float :: tsub t) 0%float)) /\
+      Rabs db <= 5 * u64 * Rabs (FR (nth i (tmain t) 0%float)) + 9 * u64 * Rabs (FR (nth i (0%float :: tsub t) 0%float)) /\
+      Rabs dc <= 5 * u64 * Rabs (FR (nth i (tsup t) 0%float)) /\
+      Rabs dr <= eta64 * (1 + 11 * Rabs (FR (nth i (tmain t) 0%float))) /\
+      (FR (nth i (0%float :: tsub t) 0%float) + da) * FR (nth i (0%float :: x) 0%float)
+      + (FR (nth i (tmain t) 0%float) + db) * FR (nth i x 0%float)
+      + (FR (nth i (tsup t) 0%float) + dc) * FR (nth (i + 1) x 0%float) = FR (nth i r 0%float) + dr.
+Proof.
+  destruct (thomas_dominant_float_uf_lemma t r W Hn Hr HF HS strong_dominant_f) as (x & E & Lx & St).
+  exists x. split; [exact E|]. split; [exact Lx|].
+  assert (Fx : forall i, (i < tn t)%nat -> ffinite (nth i x 0%float)).
+  { intros i Hi. now destruct (x_bound x E (tn t - 1 - i)%nat i ltac:(lia)) as (F & _). }
+  split; [exact Fx|exact (St Fx)].
+Qed.
+
+End DataOnly.
+
+(* ---------------------------------------------------------------- the concrete system of Round2Thomas.v meets the data hypotheses *)
+Lemma exT_data_strong :
+  (forall i, (i < tn exT_t)%nat -> ffinite (nth i exT_r 0%float) /\ Rabs (FR (nth i exT_r 0%float)) <= bpow radix2 300) /\
+  (forall i, (i < tn exT_t)%nat -> bpow radix2 (-300) <= Rabs (FR (nth i (tmain exT_t) 0%float))) /\
+  (forall i, (i < tn exT_t)%nat ->
+     2 * (Rabs (FR (nth i (0%float :: tsub exT_t) 0%float)) + Rabs (FR (nth i (tsup exT_t) 0%float)))
+     <= Rabs (FR (nth i (tmain exT_t) 0%float))).
+Proof.
+  assert (E1 : FR 1%float = 1) by fr_eval. assert (E2 : FR 2%float = 2) by fr_eval.
+  assert (E3 : FR 3%float = 3) by fr_eval. assert (E4 : FR 4%float = 4) by fr_eval.
+  assert (B300 : 4 <= bpow radix2 300) by (change 4 with (bpow radix2 2); apply bpow_le; lia).
+  assert (Bm300 : bpow radix2 (-300) <= 1) by (change 1 with (bpow radix2 0); apply bpow_le; lia).
+  split; [|split].
+  - intros [|[|[|i]]] Hi; cbn in Hi; try lia; (split; [apply ffinite_SF; vm_compute; reflexivity|]);
+      cbn [nth exT_r]; rewrite ?E1, ?E2, ?E3, Rabs_pos_eq; lra.
+  - intros [|[|[|i]]] Hi; cbn in Hi; try lia; cbn [nth exT_t tmain]; rewrite E4, Rabs_pos_eq; lra.
+  - intros [|[|[|i]]] Hi; cbn in Hi; try lia; cbn [nth exT_t tmain tsub tsup]; rewrite ?E1, ?E4, ?FR_0, ?Rabs_R0;
+      rewrite ?(Rabs_pos_eq 1), ?(Rabs_pos_eq 4) by lra; lra.
+Qed.
+
+(* a right-hand side for which the forward sweep DOES underflow: r = [2^-1060; 0; 0] gives y_0 = 2^-1062 and the product
+   sub_0 * y_0 = 2^-1062 is subnormal; the data hypotheses of thomas_dominant_float_data_lemma hold nevertheless *)
+Definition exU_r : list pfloat := [0x1p-1060%float; 0%float; 0%float].
+Lemma exU_underflows :
+  (forall i, (i < tn exT_t)%nat -> ffinite (nth i exU_r 0%float) /\ Rabs (FR (nth i exU_r 0%float)) <= bpow radix2 300) /\
+  ~ no_underflow (FR (nth 0 (tsub exT_t) 0%float) * FR (ty exT_t exU_r 0)).
+Proof.
+  assert (E1 : FR 1%float = 1) by fr_eval.
+  assert (Ey : FR (ty exT_t exU_r 0) = bpow radix2 (-1062)).
+  { rewrite FR_SF. set (s := Prim2SF (ty exT_t exU_r 0)). vm_compute in s. subst s. unfold SF2R, F2R. cbn [Fnum Fexp cond_Zopp].
+    change 4096 with (bpow radix2 12). rewrite <- bpow_plus. reflexivity. }
+  assert (Er : FR 0x1p-1060%float = bpow radix2 (-1060)).
+  { rewrite FR_SF. set (s := Prim2SF 0x1p-1060%float). vm_compute in s. subst s. unfold SF2R, F2R. cbn [Fnum Fexp cond_Zopp].
+    change 16384 with (bpow radix2 14). rewrite <- bpow_plus. reflexivity. }
+  split.
+  - intros [|[|[|i]]] Hi; cbn in Hi; try lia; (split; [apply ffinite_SF; vm_compute; reflexivity|]); cbn [nth exU_r].
+    + rewrite Er, Rabs_pos_eq by apply bpow_ge_0. apply bpow_le. lia.
+    + rewrite FR_0, Rabs_R0. apply bpow_ge_0.
+    + rewrite FR_0, Rabs_R0. apply bpow_ge_0.
+  - cbn [nth exT_t tsub]. rewrite E1, Ey, Rmult_1_l. intros [Z|L].
+    + pose proof (bpow_gt_0 radix2 (-1062)). lra.
+    + rewrite Rabs_pos_eq in L by apply bpow_ge_0. apply le_bpow in L. lia.
+Qed.
+
+Definition exU_x : list pfloat := match tsolve (A := AF) exT_t exU_r with Ok x => x | Panic _ => [] end.
+Lemma exU_solve : tsolve (A := AF) exT_t exU_r = Ok exU_x.
+Proof. vm_compute. reflexivity. Qed.
+Lemma exU_finite : forall i, (i < tn exT_t)%nat -> ffinite (nth i exU_x 0%float).
+Proof. intros [|[|[|i]]] Hi; cbn in Hi; try lia; apply ffinite_SF; vm_compute; reflexivity. Qed.
